@@ -7,6 +7,7 @@ From Coq Require Import String.
 From Coq Require Import List NArith Bool.
 From Verif Require Import Outcome VM.
 From C09 Require Import Proofs.
+From C09 Require OpTie.
 Import ListNotations.
 Open Scope N_scope.
 
@@ -87,3 +88,14 @@ Proof.
   intros p. split; [apply is_p2wpkh_shape|]. split; [apply is_p2wsh_shape|apply is_bcrp_contract].
 Qed.
 Print Assumptions c09_recognisers_shape.
+
+(* ---- tie to the source: the name table of the model equals the table translated from
+        protocol/vm/ops.go on this run (tools/optable -> VerifGen.OpTable), for all 256 bytes;
+        the 256 printed names are pairwise distinct (so Assemble's lookup by name is unambiguous) ---- *)
+Theorem c09_names_tied_to_source : forall b, b < 256 -> Model.name_early b = C09.OpTie.gen_name_early b.
+Proof. exact C09.OpTie.optable_names_lemma. Qed.
+Print Assumptions c09_names_tied_to_source.
+
+Theorem c09_names_distinct : C09.OpTie.distinct (map Model.op_name C09.OpTie.bytes256) = true.
+Proof. exact C09.OpTie.final_names_distinct. Qed.
+Print Assumptions c09_names_distinct.
